@@ -303,6 +303,7 @@ type Call struct {
 	ViaMW    bool                   `json:"via_with_middlewares,omitempty"`
 	ReqMWs   []int                  `json:"request_middlewares,omitempty"`
 	Fault    string                 `json:"fault,omitempty"`
+	Entries  int                    `json:"error_entries,omitempty"` // entries of the error list the fault answers with
 }
 
 // Fault kinds a controller can assign to a call
@@ -391,6 +392,27 @@ func (s *svcMW) Query(ctx context.Context, in *graphql.QueryInput, recv interfac
 	return s.Service.query(ctx, in, recv, true, ids)
 }
 
+// faultEntries is the number of entries of the error list a faulty call answers with: a service
+// reports one to three GraphQL errors at once (the gateway has to keep every one of them); the other
+// kinds of failure are one error each
+func faultEntries(fault string, c *Call) int {
+	switch fault {
+	case FaultNone:
+		return 0
+	case FaultPartial, FaultErrsNull, FaultErrsNode:
+		return 1 + (len(c.Query)+len(c.Service)+len(c.Vars))%3
+	}
+	return 1
+}
+
+func errList(msg string, n int) graphql.ErrorList {
+	l := graphql.ErrorList{}
+	for i := 0; i < n; i++ {
+		l = append(l, &graphql.Error{Message: fmt.Sprintf("%s (%d of %d)", msg, i+1, n)})
+	}
+	return l
+}
+
 func (s *Service) Query(ctx context.Context, in *graphql.QueryInput, recv interface{}) error {
 	return s.query(ctx, in, recv, false, nil)
 }
@@ -409,6 +431,7 @@ func (s *Service) query(ctx context.Context, in *graphql.QueryInput, recv interf
 		fault = ctl.Fault(&c)
 	}
 	c.Fault = fault
+	c.Entries = faultEntries(fault, &c)
 	ctl.Calls = append(ctl.Calls, c)
 	ctl.Outstanding++
 	if ctl.Outstanding > ctl.MaxOut {
@@ -444,7 +467,7 @@ func (s *Service) query(ctx context.Context, in *graphql.QueryInput, recv interf
 	case FaultTransport:
 		return errors.New("transport failure at " + s.Name)
 	case FaultErrsNull:
-		return graphql.ErrorList{&graphql.Error{Message: "service error at " + s.Name}}
+		return errList("service error at "+s.Name, c.Entries)
 	case FaultNodeNull:
 		*out = map[string]interface{}{"node": nil}
 		return nil
@@ -453,7 +476,7 @@ func (s *Service) query(ctx context.Context, in *graphql.QueryInput, recv interf
 		return nil
 	case FaultErrsNode:
 		*out = map[string]interface{}{"node": nil}
-		return graphql.ErrorList{&graphql.Error{Message: "no such object at " + s.Name}}
+		return errList("no such object at "+s.Name, c.Entries)
 	}
 	op := doc.Operations[0]
 	rt := "Query"
@@ -470,7 +493,7 @@ func (s *Service) query(ctx context.Context, in *graphql.QueryInput, recv interf
 	}}
 	*out = it.exec(op.SelectionSet, nil, rt)
 	if fault == FaultPartial {
-		return graphql.ErrorList{&graphql.Error{Message: "partial failure at " + s.Name}}
+		return errList("partial failure at "+s.Name, c.Entries)
 	}
 	return nil
 }
